@@ -47,6 +47,9 @@ func bmProps(r *rand.Rand) (src string, canon string, shorthand string) {
 			s = fmt.Sprintf("%d.%02d", a, b)
 			f, _ := strconv.ParseFloat(s, 64)
 			c = fmt.Sprintf("float:%v", f)
+			if r.Intn(5) == 0 { // the parser skips blanks after the decimal point: they are not digits of the fraction
+				s = fmt.Sprintf("%d.%s%02d", a, []string{" ", "  ", "\t"}[r.Intn(3)], b)
+			}
 		case 2:
 			b := r.Intn(2) == 0
 			s, c = strconv.FormatBool(b), fmt.Sprintf("bool:%v", b)
@@ -65,7 +68,14 @@ func bmProps(r *rand.Rand) (src string, canon string, shorthand string) {
 		}
 		keys = append(keys, k)
 		vals[k] = c
-		src += " " + k + "=" + s
+		switch r.Intn(12) { // blanks around the '=' of a property are skipped too
+		case 0:
+			src += " " + k + " = " + s
+		case 1:
+			src += "  " + k + "= " + s
+		default:
+			src += " " + k + "=" + s
+		}
 	}
 	sort.Strings(keys)
 	for _, k := range keys {
